@@ -143,7 +143,9 @@ func cmdCheck(o *Options, pos []string) int {
 	meta := loadPropMeta()
 	known := loadKnown()
 	baseline := loadBaseline()
-	quick, full := 3, 20
+	// (the second figure is the budget of the full solver race for an obligation the first, short
+	// attempt did not decide: generous, so that a loaded machine does not turn into an alarm)
+	quick, full := 3, 45
 	if o.Tier == "thorough" {
 		quick, full = 5, 120
 	}
